@@ -37,6 +37,10 @@ CHECKS = {
    technique="exhaustive enumeration of capability lists, BAR assignments and offset/length/multiplier boundary values (deviation bound 2) on the real PciTransport::new against a reference parser in 128-bit arithmetic; every later MMIO access intercepted and classified against the true windows; checked and release profiles",
    text="PciTransport::new runs over a reference PCI function model for every capability list up to the stated length, every BAR kind and boundary offset/length combination with up to two deviating capabilities, every notify multiplier and BAR index class, and cyclic lists: success/failure and the mapped windows must equal the reference parser's, every mmio_phys_to_virt request must lie inside an allocated memory BAR; then the whole Transport operation script runs on six layouts (plain and through SomeTransport) with each access checked against the standard common-configuration layout, queue selection, enable-last, notify offset x multiplier and reset-and-wait on drop.",
    note="Trusts the reference parser (lab/src/c11.rs, from virtio spec 4.1.4) and the PCI/virtio-pci register models. Which error is returned is not constrained."),
+ "C13": dict(level="model_checking", design="DESIGN.md §4 C13",
+   technique="exhaustive sweep of offset/width/window combinations on the real MMIO and PCI transports with intercepted accesses; deviation-bounded DFS over placements of device-side configuration updates between the individual register reads of each multi-field read (schedule enumeration on the real drivers); checked and release profiles",
+   text="(a) every aligned offset up to window+8 and offsets near usize::MAX/2^63/2^32, 7 access types, windows 0..24 bytes and no window, on MMIO legacy/modern and PCI, reads and writes: success iff wholly inside, touching exactly those bytes once, otherwise the documented error and no access. (b) for block capacity, socket CID, console size, MAC address and 9P mount tag on MMIO-modern and PCI, every placement of up to 3 device-side configuration updates before any generation or field read: the value the driver reports must be the value of one single generation.",
+   note="Trusts the register-level device models. Legacy MMIO has no generation counter; tearing there is outside the property's reach."),
 }
 
 NOT_YET = "check not built yet in this round (machinery under construction; see DESIGN.md)"
